@@ -292,8 +292,25 @@ pub mod fussy_token {
         }
     }
 }
+/// A "token" whose transfer does nothing and needs nobody's authorisation (an attacker-supplied
+/// gas token).
+pub mod noop_token {
+    use soroban_sdk::{contract, contractimpl, Address, Env};
+
+    #[contract]
+    pub struct NoopToken;
+
+    #[contractimpl]
+    impl NoopToken {
+        pub fn transfer(_env: Env, _from: Address, _to: Address, _amount: i128) {}
+        pub fn balance(_env: Env, _id: Address) -> i128 {
+            0
+        }
+    }
+}
 pub use dummy_target::DummyTarget;
 pub use fussy_token::FussyToken;
+pub use noop_token::NoopToken;
 
 pub use principal::*;
 pub use factory::*;
